@@ -42,7 +42,11 @@ MAIN_VARIANTS = [
 	'class M:\n\tn: str\n\n\tdef __init__(self, n: str) -> None:\n\t\tself.n = n\n\n\tdef get(self) -> str:\n\t\treturn self.n\n\n\ndef main_f(a: str) -> str:\n\tm = M(a)\n\tg = m.get()\n\tk = m.n\n\treturn g\n',
 	'class M:\n\tn: float\n\n\tdef __init__(self, n: float) -> None:\n\t\tself.n = n\n\n\tdef get(self) -> list[float]:\n\t\treturn [self.n]\n\n\ndef main_f(a: float) -> float:\n\tm = M(a)\n\tg = m.get()\n\tk = m.n\n\treturn k\n',
 	'def main_f(a: int) -> int:\n\txs: list[int] = [a, a]\n\tds: dict[str, int] = {\'k\': a}\n\treturn len(xs) + len(ds)\n',
+	# submissions that declare nothing (statements only): two of them in a row must not answer with the text of the first
+	"print('first')\n",
+	"print('second', 3)\nprint(4)\n",
 ]
+NODECL = (6, 7)
 MAIN_BAD = [
 	'def main_f(a: int) -> int:\n\treturn a +\n',
 	'def main_f(a: int) -> int:\n\treturn undefined_thing + a\n',
@@ -52,7 +56,11 @@ MAIN_BAD = [
 	'def main_f(xs: list[int]) -> int:\n\tys: list[int] = xs\n\treturn undefined_thing\n',
 	'def main_f(d: dict[str, int]) -> int:\n\tn = len(d)\n\treturn d.nothing\n',
 	'def main_f(a: int) -> int:\n\tb = a + 1\n\treturn b.no_attr\n',
+	# refused while the module is being loaded: an import that cannot be loaded, a base class nobody defines
+	'from proj.nowhere import thing\n\n\ndef main_f(a: int) -> int:\n\treturn a\n',
+	'class Orphan(NoSuchBase):\n\tn: int\n\n\ndef main_f(a: int) -> int:\n\treturn a\n',
 ]
+LOAD_BAD = (7, 8)
 LIB = 'rogw.tranp.compatible.libralies.type'
 LIB_CLASSES = 'rogw.tranp.compatible.libralies.classes'
 
@@ -172,13 +180,18 @@ def run_history(acc: Acc, r: random.Random, workdir: str, hid: int, n_ops: int) 
 
 	# scripted opening of every history: text that needs an include request, a submission refused while text is being emitted, then
 	# modules that need no include - whatever the first two left behind must not show in the others
-	forced = [('transpile', hp.names['r']), ('submit-bad', '__main__'), ('submit', '__main__'), ('transpile', hp.names['l']), ('transpile', hp.names['u']), ('reload-library', LIB_CLASSES), ('transpile', hp.names['r']), ('transpile', hp.names['l'])]
+	forced = [('transpile', hp.names['r']), ('submit-bad', '__main__'), ('submit', '__main__'), ('transpile', hp.names['l']), ('transpile', hp.names['u']), ('reload-library', LIB_CLASSES), ('transpile', hp.names['r']), ('transpile', hp.names['l']),
+		# two submissions without declarations in a row; a submission refused at load time followed by accepted ones; the class stubs unloaded alone
+		('submit', '__main__', NODECL[0]), ('submit', '__main__', NODECL[1]), ('submit-bad', '__main__', LOAD_BAD[hid % 2]), ('submit', '__main__', hid % 2), ('submit-bad', '__main__', LOAD_BAD[(hid + 1) % 2]), ('submit', '__main__', 3),
+		('unload-library', LIB_CLASSES), ('submit', '__main__', 5), ('transpile', hp.names['r'])]
 	for step in range(n_ops + len(forced)):
 		x = r.random()
 		before = None
 		target: str
+		forced_index = None
 		if step < len(forced):
-			op, target = forced[step]
+			op, target, *rest = forced[step]
+			forced_index = rest[0] if rest else None
 			x = 2.0
 		elif x < 0.3:
 			target = r.choice(mods)
@@ -236,6 +249,10 @@ def run_history(acc: Acc, r: random.Random, workdir: str, hid: int, n_ops: int) 
 				s.unload(target)
 				s.load(target)
 				disturbed = True
+			elif op == 'unload-library':
+				# the stub library alone; the next load of any module brings it back (Modules loads the libraries with every module)
+				s.unload(target)
+				disturbed = True
 			elif op == 'unload':
 				if main_variant == 2 and '__main__' in loaded_now():
 					s.unload('__main__')
@@ -250,7 +267,7 @@ def run_history(acc: Acc, r: random.Random, workdir: str, hid: int, n_ops: int) 
 				s.unload(target)
 				disturbed = True
 			elif op == 'submit':
-				j = r.randrange(len(MAIN_VARIANTS))
+				j = r.randrange(len(MAIN_VARIANTS)) if forced_index is None else forced_index
 				s.reload('__main__', MAIN_VARIANTS[j] + '\n')
 				main_variant = j
 				out = s.transpile('__main__')
@@ -263,7 +280,7 @@ def run_history(acc: Acc, r: random.Random, workdir: str, hid: int, n_ops: int) 
 					return
 			elif op == 'submit-bad':
 				try:
-					s.reload('__main__', (MAIN_BAD[4 + step % 3] if step < len(forced) else r.choice(MAIN_BAD)) + '\n')
+					s.reload('__main__', (MAIN_BAD[forced_index] if forced_index is not None else MAIN_BAD[4 + step % 3] if step < len(forced) else r.choice(MAIN_BAD)) + '\n')
 					s.transpile('__main__')
 				except Errors.Error:
 					acc.see('failed_submission', 'app-error')
